@@ -110,6 +110,68 @@ theorem c43_sys_caller (f : MockFn) (is : List CycIn) (s : Sys) :
     (Caller.run s.caller ((Sys.run f s is).map SysOut.env)).map (·.evt) = (Sys.run f s is).map (·.evt) :=
   sys_caller f is s
 
+-- OBLIGATION c43_trig_attempts : multi-call CallTrigger — in every cycle in which the trigger is awaited every method it calls is attempted exactly once (its adapter is enabled, and it executes iff granted in that cycle); a method it does not call is enabled only by other agents
+theorem c43_trig_attempts (es : List Entry) (mode : Mode) (rest : List TCmd) (e : TEnv) (m : Nat) :
+    (∀ d, callData es m = some d →
+      (TCaller.step ⟨.trig es mode :: rest⟩ e).2.en m = true ∧
+      (TCaller.step ⟨.trig es mode :: rest⟩ e).2.done m = e.grant m) ∧
+    (callData es m = none →
+      (TCaller.step ⟨.trig es mode :: rest⟩ e).2.en m = (e.ext m).isSome ∧
+      (TCaller.step ⟨.trig es mode :: rest⟩ e).2.done m = ((e.ext m).isSome && e.grant m)) := by
+  rw [step_trig]
+  constructor
+  · intro d h; split <;> exact tout_called es e _ m d h
+  · intro h; split <;> exact tout_not_called es e _ m h
+
+-- OBLIGATION c43_trig_until : until_done / until_all_done / a single await return at the FIRST cycle in which any / all / whatever results are not None, hand back exactly that cycle's results, return nothing before, and the process then continues (every entry list, every history)
+theorem c43_trig_until (es : List Entry) (mode : Mode) (rest : List TCmd) (pre : List TEnv) (e0 : TEnv)
+    (post : List TEnv) (hpre : ∀ e ∈ pre, fires mode (results es e) = false)
+    (h0 : fires mode (results es e0) = true) :
+    TCaller.run ⟨.trig es mode :: rest⟩ (pre ++ e0 :: post) =
+      pre.map (fun e => tout es e none) ++ tout es e0 (some (results es e0)) :: TCaller.run ⟨rest⟩ post :=
+  run_trig es mode rest pre e0 post hpre h0
+
+-- OBLIGATION c43_trig_result_none_iff : the per-call (and per sampled method) result is None iff that method did not run for its adapter in that cycle, otherwise the method's result of that cycle for the data of this call
+theorem c43_trig_result_none_iff (es : List Entry) (e : TEnv) (m d : Nat) :
+    (resOf es e (.call m d) = none ↔ doneOf es e m = false) ∧
+    (doneOf es e m = true → resOf es e (.call m d) = some (e.out m d)) ∧
+    (resOf es e (.samp m) = none ↔ doneOf es e m = false) :=
+  ⟨(resOf_call es e m d).1, (resOf_call es e m d).2, resOf_samp es e m⟩
+
+-- OBLIGATION c43_trig_counts : over the cycles a trigger is awaited, the number of executed calls of each called method equals the number of those cycles in which it was granted (calls that already executed are re-issued by until_all_done — that is what the code does)
+theorem c43_trig_counts (es : List Entry) (mode : Mode) (rest : List TCmd) (pre : List TEnv) (e0 : TEnv)
+    (post : List TEnv) (hpre : ∀ e ∈ pre, fires mode (results es e) = false)
+    (h0 : fires mode (results es e0) = true) (m d : Nat) (hm : callData es m = some d) :
+    ((TCaller.run ⟨.trig es mode :: rest⟩ (pre ++ e0 :: post)).take (pre.length + 1)).countP (·.done m) =
+      (pre ++ [e0]).countP (·.grant m) := by
+  rw [run_trig es mode rest pre e0 post hpre h0]
+  clear hpre h0
+  induction pre with
+  | nil => simp [(tout_called es e0 _ m d hm).2]
+  | cons e pre ih =>
+    simp only [List.map_cons, List.cons_append, List.length_cons, List.take_succ_cons, List.countP_cons,
+      (tout_called es e none m d hm).2]
+    rw [ih]
+
+-- OBLIGATION c43_trig_blocked : a trigger whose return condition never holds keeps being awaited and returns nothing
+theorem c43_trig_blocked (es : List Entry) (mode : Mode) (rest : List TCmd) (env : List TEnv)
+    (h : ∀ e ∈ env, fires mode (results es e) = false) :
+    TCaller.run ⟨.trig es mode :: rest⟩ env = env.map (fun e => tout es e none) :=
+  run_trig_never es mode rest env h
+
+/-- non-vacuity (the coordinator's scenario): `bump` (method 0) always ready, `read` (method 1) ready from the
+    third cycle. `until_done` returns in the first cycle with `(some, None)`; `until_all_done` returns in the
+    third cycle and `bump` has executed three times by then -/
+example :
+    let env (r1 : Bool) : TEnv := { ext := fun _ => none, grant := fun m => m == 0 || (m == 1 && r1),
+                                    out := fun m a => a + 10 * m, value := 0 }
+    let es := [Entry.call 0 1, Entry.call 1 2]
+    ((TCaller.run ⟨[.trig es .anyDone]⟩ [env false, env false, env true]).map (·.evt) =
+        [some [some 1, none], none, none]) ∧
+    ((TCaller.run ⟨[.trig es .allDone]⟩ [env false, env false, env true]).map (fun o => (o.done 0, o.evt)) =
+        [(true, none), (true, none), (true, some [some 1, some 12])]) := by
+  decide
+
 /-- non-vacuity: tick; call 5 waits one not-ready cycle and succeeds when ready (argument 5+2, one effect 7
     applied once); call_try 3 fails because the mock is disabled, call_try 4 succeeds and sees the effect -/
 example :
@@ -133,3 +195,8 @@ end TxV.Testbench
 #print axioms TxV.Testbench.c43_mock_result_same_cycle
 #print axioms TxV.Testbench.c43_sys_call_value
 #print axioms TxV.Testbench.c43_sys_caller
+#print axioms TxV.Testbench.c43_trig_attempts
+#print axioms TxV.Testbench.c43_trig_until
+#print axioms TxV.Testbench.c43_trig_result_none_iff
+#print axioms TxV.Testbench.c43_trig_counts
+#print axioms TxV.Testbench.c43_trig_blocked
